@@ -461,23 +461,54 @@ SU_vector SU_vector::UDaggerTransform(gsl_matrix_complex* em) const{
 }
 
 
+namespace{
+///Check that M V = V diag(L) and that V is unitary, to within a few hundred units of roundoff.
+///Non-finite entries fail the test.
+bool eigensystem_is_valid(const gsl_matrix_complex* M, const gsl_vector* L, const gsl_matrix_complex* V){
+  const unsigned int d=M->size1;
+  double scale=0;
+  for(unsigned int i=0; i<d; i++)
+    for(unsigned int j=0; j<d; j++)
+      scale=std::max(scale,gsl_complex_abs(gsl_matrix_complex_get(M,i,j)));
+  const double tol=1e-13;
+  for(unsigned int i=0; i<d; i++){
+    for(unsigned int j=0; j<d; j++){
+      gsl_complex r=gsl_complex_mul_real(gsl_matrix_complex_get(V,i,j),-gsl_vector_get(L,j));
+      gsl_complex o=gsl_complex_rect(i==j?-1.:0.,0.);
+      for(unsigned int k=0; k<d; k++){
+        r=gsl_complex_add(r,gsl_complex_mul(gsl_matrix_complex_get(M,i,k),gsl_matrix_complex_get(V,k,j)));
+        o=gsl_complex_add(o,gsl_complex_mul(gsl_complex_conjugate(gsl_matrix_complex_get(V,k,i)),gsl_matrix_complex_get(V,k,j)));
+      }
+      if(!(gsl_complex_abs(r)<=tol*scale) || !(gsl_complex_abs(o)<=tol))
+        return false;
+    }
+  }
+  return true;
+}
+}
+
 std::pair<std::unique_ptr<gsl_vector,void (*)(gsl_vector*)>,
 std::unique_ptr<gsl_matrix_complex,void (*)(gsl_matrix_complex*)>>
 SU_vector::GetEigenSystem(bool order) const{
   gsl_vector * eigenvalues = gsl_vector_alloc(dim);
   gsl_matrix_complex * eigenvectors = gsl_matrix_complex_alloc(dim,dim);
+  bool useGeneralSolver=true;
 #define SQ(x) ((x)*(x))
-  switch (dim) {
-    case 3:
-          {
+  if(dim==3){
+    {
 #include <SQuIDS/SU_inc/EigenSystemSU3.txt>
-          }
-          break;
-    default:
-      auto matrix=(*this).GetGSLMatrix();
-      gsl_eigen_hermv_workspace * ws = gsl_eigen_hermv_alloc(dim);
-      gsl_eigen_hermv(matrix.get(),eigenvalues,eigenvectors,ws);
-      gsl_eigen_hermv_free(ws);
+    }
+    // The closed form divides by matrix entries and by differences of eigenvalues, so it
+    // returns non-finite or inaccurate results for sparse, degenerate and nearly degenerate
+    // matrices. Keep its result only if it passes a direct check.
+    auto matrix=(*this).GetGSLMatrix();
+    useGeneralSolver=!eigensystem_is_valid(matrix.get(),eigenvalues,eigenvectors);
+  }
+  if(useGeneralSolver){
+    auto matrix=(*this).GetGSLMatrix();
+    gsl_eigen_hermv_workspace * ws = gsl_eigen_hermv_alloc(dim);
+    gsl_eigen_hermv(matrix.get(),eigenvalues,eigenvectors,ws);
+    gsl_eigen_hermv_free(ws);
   }
 #undef SQ
   // sorting eigenvalues
